@@ -179,6 +179,8 @@ def gen_fn(item, src_text, stripped, relfile, log, dropped_hints, env):
         where = m.group(2) or ''
         sig = sig[:m.start()] + '-> (%s: %s) %s' % (ret, m.group(1).strip(), where)
 
+    if item.get('stub'):
+        body = '{ unimplemented!() }'
     # ---- body insertions (loops, hints)
     loops = find_loops(body)
     inserts = []  # (offset, order, [Seg])
@@ -214,6 +216,8 @@ def gen_fn(item, src_text, stripped, relfile, log, dropped_hints, env):
     segs = []
     if impl_header is not None:
         segs.append(Seg(' '.join(impl_header.split()) + ' {\n', ('spec', qual + '::impl')))
+    if item.get('stub'):
+        segs.append(Seg('#[verifier::external_body]\n', ('spec', qual + '::stub')))
     segs.append(Seg(sig.rstrip() + '\n', ('code', relfile, sig_line)))
     segs += clause_lines('requires', item.get('requires'), qual + '::pre')
     segs += clause_lines('ensures', [(l, t) for (l, _p, t) in item.get('ensures', [])], qual + '::post')
@@ -276,6 +280,11 @@ def engine_rewrite(item, sig, body, env, log, sig_line, body_line, qual):
     state = [f for f in fields if not is_config_type(ftype[f])]
     split = env['split']
     me = split.get((item['engine'], item['name']))
+    if item.get('r3'):
+        try:
+            body = RL.r3_with(body, log, body_line, qual, True)
+        except RL.UnsupportedConstruct as e:
+            raise ExtractError('unsupported construct in %s: %s' % (qual, e))
     guards = RL.find_guard_locals(sig + body)
     rl = []
     # calls to split helpers
@@ -290,18 +299,19 @@ def engine_rewrite(item, sig, body, env, log, sig_line, body_line, qual):
                        'method call on self while a guard is live -> associated fn over the fields it uses'))
     if me is not None:
         params = ', '.join(('%s: %s' % (f, ftype[f]) if is_config_type(ftype[f]) else '%s: &mut %s' % (f, ftype[f])) for f in me['fields'])
-        rl.append(RL.R('R2.receiver', r'\( & self ,?', '(' + params + ', ', 'receiver split into the fields the body uses: ' + ', '.join(me['fields'])))
+        rl.append(RL.R('R2.receiver', r'\( & self\b(?! \.) ,?', '(' + params + ', ', 'receiver split into the fields the body uses: ' + ', '.join(me['fields'])))
         for f in state:
-            rl.append(RL.R('R1.acq.write:' + f, r'self \. %s \. (?:write|lock) \( \)' % f, '(&mut *%s)' % f, 'exclusive lock acquisition -> &mut re-borrow'))
-            rl.append(RL.R('R1.acq.read:' + f, r'self \. %s \. read \( \)' % f, '(&*%s)' % f, 'shared lock acquisition -> & re-borrow'))
+            rl.append(RL.R('R1.acq.write:' + f, r'self \. %s \. (?:write|lock|borrow_mut) \( \)' % f, '(&mut *%s)' % f, 'exclusive lock acquisition -> &mut re-borrow'))
+            rl.append(RL.R('R1.acq.read:' + f, r'self \. %s \. (?:read|borrow) \( \)' % f, '(&*%s)' % f, 'shared lock acquisition -> & re-borrow'))
         for f in fields:
             rl.append(RL.R('R2.field:' + f, r'self \. %s\b' % f, f, 'self.<field> -> split parameter'))
     else:
         rl.append(RL.SELF_MUT)
         for f in state:
-            rl.append(RL.R('R1.acq.write:' + f, r'self \. %s \. (?:write|lock) \( \)' % f, '(&mut self.%s)' % f, 'exclusive lock acquisition -> &mut borrow'))
-            rl.append(RL.R('R1.acq.read:' + f, r'self \. %s \. read \( \)' % f, '(&self.%s)' % f, 'shared lock acquisition -> & borrow'))
+            rl.append(RL.R('R1.acq.write:' + f, r'self \. %s \. (?:write|lock|borrow_mut) \( \)' % f, '(&mut self.%s)' % f, 'exclusive lock acquisition -> &mut borrow'))
+            rl.append(RL.R('R1.acq.read:' + f, r'self \. %s \. (?:read|borrow) \( \)' % f, '(&self.%s)' % f, 'shared lock acquisition -> & borrow'))
     rl.append(RL.REBORROW)
+    rl.append(RL.REBORROW_SH)
     rl += RL.guard_local_rules(guards)
     rl += [RL.CFG_STATS, RL.CRATE_PATH, RL.R1_DROP]
     sig = _apply_rules(sig, rl, log, sig_line, qual)
